@@ -1,11 +1,20 @@
 use crate::util::Tok;
 
 mod c06;
+mod c11;
+mod c11_live;
 
 pub fn run(engine: &str, toks: Vec<Tok>) -> Vec<Tok> {
     match engine {
         "c06_decode" => c06::decode(toks),
         "c06_encode" => c06::encode(toks),
+        "c11_checksum" => c11::checksum(toks),
+        "c11_serialize_echo" => c11::serialize_echo(toks),
+        "c11_decode_requests" => c11::decode_requests(toks),
+        "c11_skip_header" => c11::skip_header(toks),
+        "c11_parse_message" => c11::parse_message(toks),
+        "c11_echo_eq" => c11::echo_eq(toks),
+        "c11_live" => c11_live::run(toks),
         _ => panic!("unknown engine {}", engine),
     }
 }
